@@ -373,6 +373,25 @@ func e1EncryptedFileSeeds() []e1Seed {
 			t.Children, t.Saio, t.Saiz = keep, nil, nil
 		})
 	}
+	// media segments on their own (no moov: the per-sample IV size of a senc box is not known and ParseReadBox tries 0, 8
+	// and 16 in turn), for IVs of different shapes and one or two samples per fragment
+	for _, v := range []struct{ codec, scheme, iv string }{{"avc", "cenc", c06IVs[0]}, {"avc", "cenc", c06IVs[1]}, {"avc", "cenc", c06IVs[2]}, {"avc", "cenc", c06IVs[3]},
+		{"avc", "cenc", "a1b2c3d4e5f607180000000000000000"}, {"avc", "cbcs", c06IVs[1]}, {"aac", "cenc", c06IVs[1]}, {"aac", "cenc", c06IVs[3]}} {
+		for fi, fr := range [][][][]c06Nal{{{{{VCL: true, Size: 130}}}}, {{{{VCL: true, Size: 130}, {VCL: false, Size: 5}}, {{VCL: true, Size: 140, Var: 1}}}}, {{{{VCL: true, Size: 150}}}, {{{VCL: true, Size: 131}}}}} {
+			cs := &c06Case{Codec: v.codec, Scheme: v.scheme, IV: v.iv, Key: c06Keys[0], Frags: fr}
+			f, ok := c06Build(cs)
+			if !ok {
+				continue
+			}
+			enc, err := c06Encrypt(f.All(), cs)
+			if err != nil {
+				continue
+			}
+			if n := c06SplitAt(enc); n > 0 && n < len(enc) {
+				out = append(out, e1Seed{Name: fmt.Sprintf("gen/enc-media-only %s-%s-iv%s shape%d", v.codec, v.scheme, v.iv, fi), Type: "file", Bytes: enc[n:]})
+			}
+		}
+	}
 	// two protected tracks in one moof, with different per-sample IV sizes / schemes (state carried from one traf to the
 	// next in the file decoders): the second file's trak, trex and traf are moved into the first as track 2
 	encOf := func(codec, scheme, iv string) []byte {
